@@ -125,8 +125,13 @@ pub fn child(k: usize, outdir: &str, seed: u64, thorough: bool) -> serde_json::V
     let fs = functions();
     for i in 0..(250 * scale) {
         let mut r = rng.fork();
-        let (f, n, c) = *r.pick(&fs);
-        let tys: Vec<Ty> = if f == F::Case { vec![Ty::Bool(vec![false, true]), arg_ty(&mut r, Cat::Num), arg_ty(&mut r, Cat::Num)] }
+        // (the first rounds: every function once, then at random)
+        let (f, n, c) = if (i as usize) < fs.len() { fs[i as usize] } else { *r.pick(&fs) };
+        let tys: Vec<Ty> = if (f == F::Round || f == F::Trunc) && n == 2 {
+                // a precision ranging over an interval: the extremal result may sit at an interior precision
+                let x = (r.range(-999, 999) as f64) / 100.0 + 0.005 * (r.range(0, 1) as f64);
+                vec![Ty::Float(vec![(x, x + (r.range(0, 40) as f64) / 100.0)]), Ty::Int(vec![(r.range(-3, 0), r.range(1, 4))])] }
+            else if f == F::Case { vec![Ty::Bool(vec![false, true]), arg_ty(&mut r, Cat::Num), arg_ty(&mut r, Cat::Num)] }
             else if f == F::Substr { vec![arg_ty(&mut r, Cat::Txt), Ty::Int(vec![(0, 5)])] }
             else if f == F::Pow { vec![arg_ty(&mut r, Cat::Num), if r.chance(1, 2) { Ty::Int(vec![(-3, 3)]) } else { let a = (r.range(-6, 4) as f64) / 2.0; Ty::Float(vec![(a, a + (r.range(1, 6) as f64) / 2.0)]) }] }
             else if c == Cat::Num && n == 2 && r.chance(1, 6) {
